@@ -212,7 +212,20 @@ class Builtins(Methods):
 
     def find_method(self, cls, name, module=None):
         ex = self.ex
-        mods = [module] if module else list(ex._modules)
+        if module:
+            mods = [module]
+        else:
+            # classes of any ngo module (loaded on demand)
+            import os
+
+            mods = list(ex._modules)
+            root = os.path.join(ex.src_root, "ngo")
+            for dp, _dn, fns in os.walk(root):
+                for fn in sorted(fns):
+                    if fn.endswith(".py") and fn != "__init__.py":
+                        rel = os.path.relpath(os.path.join(dp, fn), ex.src_root)[:-3].replace(os.sep, ".")
+                        if rel not in mods:
+                            mods.append(rel)
         for mod in mods:
             ex.load_module(mod)
             b = ex._bindings[mod].get(cls)
@@ -704,6 +717,11 @@ class Builtins(Methods):
                 found = False
                 for k, val in obj.items:
                     c = ex.eq(st, idx, k)
+                    if not isinstance(c, bool):
+                        if ex.valid(st, c):
+                            c = True
+                        elif ex.valid(st, z3.Not(c)):
+                            c = False
                     if c is True:
                         items.append((k, v))
                         found = True
